@@ -3,6 +3,7 @@ CONSTANTS
   MaxOps = 5
   Deviations <- NoDev
   JunkBytes <- MCJunk
+  RegistryOps = FALSE
 CHECK_DEADLOCK FALSE
 VIEW ViewNoHist
 INVARIANT FramesRight
